@@ -596,6 +596,15 @@ VARIANTS += [
 ]
 # ---- fourth round: rules derived from the mutation sweep and the fourth batch of seeded changes
 VARIANTS += [
+    M("tikz-loss-keep-other-layout", TIKZ, "                keep_pos = left_layout.anchors[left_gene]", "                keep_pos = right_layout.anchors[left_gene]", "DRAW-ANCHOR-SIDES"),
+    M("tikz-loss-keep-none-gene", TIKZ, "                keep_pos = right_layout.anchors[right_gene]", "                keep_pos = right_layout.anchors[left_gene]", "DRAW-ANCHOR-SIDES"),
+    M("tikz-loss-test-other-side", TIKZ, "            if right_gene is None:", "            if left_gene is None:", "DRAW-ANCHOR-SIDES"),
+    M("tikz-child-layouts-swapped", TIKZ, "            left_layout = layout[left]\n            right_layout = layout[right]", "            left_layout = layout[right]\n            right_layout = layout[left]", "DRAW-ANCHOR-SIDES"),
+    M("tikz-foreign-home-of-conserved", TIKZ, "            foreign_layout = all_layouts[mapping[right_gene]]", "            foreign_layout = all_layouts[mapping[left_gene]]", "DRAW-ANCHOR-SIDES"),
+    M("tikz-anchor-unguarded", TIKZ, "        if root_gene in layout.anchors:", "        if branch.kind != NodeEvent.LEAF:", "DRAW-ANCHOR-SIDES"),
+    T("twin-tikz-loss-test-not-none", TIKZ, "            if right_gene is None:\n                assert left_layout is not None\n                keep_pos = left_layout.anchors[left_gene]",
+      "            if left_gene is not None:\n                assert left_layout is not None\n                keep_pos = left_layout.anchors[left_gene]",
+      note="exactly one side of a loss branch is set (LOSS-WALK)"),
     M("subtrees-right-offset-no-left-width", LAYOUT, "                state[\"right_pos\"] = Position(\n                    left_info[\"size\"].w + subtree_spacing,", "                state[\"right_pos\"] = Position(\n                    subtree_spacing,", "SUBTREE-BOX", "SIGMA-INVARIANCE"),
     M("subtrees-left-offset-other-height", LAYOUT, "                    0,\n                    subtree_span - left_info[\"size\"].h,", "                    0,\n                    subtree_span - right_info[\"size\"].h,", "SUBTREE-BOX", "SIGMA-INVARIANCE"),
     M("subtrees-span-min", LAYOUT, "                    max(left_info[\"size\"].h, right_info[\"size\"].h) + trunk_height", "                    min(left_info[\"size\"].h, right_info[\"size\"].h) + trunk_height", "SUBTREE-BOX", "SIGMA-INVARIANCE"),
